@@ -818,18 +818,19 @@ Qed.
 Lemma alias_f_sort v st r st' : hp_f_sort v st = Ok (r, st') ->
   hp_top_fresh st r \/ (r = v /\ exists arr off cap, v = HvSlice LAny arr off 0 cap).
 Proof.
-  intros H. destruct v; try (left; revert H; unfold hp_f_sort; match goal with |- ?m st = _ -> _ => assert (Hf : hM_fresh m) by fresh_go; apply Hf end).
-  destruct tag, len.
-  - right. simpl in H. unfold hp_ret in H. inversion H; subst. split; [reflexivity|eauto].
-  - left. revert H. cbn [hp_f_sort]. match goal with |- ?m st = _ -> _ => assert (Hf : hM_fresh m); [|apply Hf] end.
-    apply fresh_bind; [spec_go|intros xs]. apply fresh_bind; [spec_go|intros sorted].
-    apply fresh_alloc_slice_aux. apply alloc_fill_index'.
-  - left. revert H. cbn [hp_f_sort]. match goal with |- ?m st = _ -> _ => assert (Hf : hM_fresh m) by fresh_go; apply Hf end.
-  - left. revert H. cbn [hp_f_sort]. match goal with |- ?m st = _ -> _ => assert (Hf : hM_fresh m) by fresh_go; apply Hf end.
-  - left. revert H. cbn [hp_f_sort]. match goal with |- ?m st = _ -> _ => assert (Hf : hM_fresh m) by fresh_go; apply Hf end.
-  - left. revert H. cbn [hp_f_sort]. match goal with |- ?m st = _ -> _ => assert (Hf : hM_fresh m) by fresh_go; apply Hf end.
-  - left. revert H. cbn [hp_f_sort]. match goal with |- ?m st = _ -> _ => assert (Hf : hM_fresh m) by fresh_go; apply Hf end.
-  - left. revert H. cbn [hp_f_sort]. match goal with |- ?m st = _ -> _ => assert (Hf : hM_fresh m) by fresh_go; apply Hf end.
+  intros H.
+  assert (Hfill : forall t len z ws, hM_fresh (hp_bind (hp_alloc_fill z ws) (fun n => hp_ret (HvSlice t (HlNew n) 0 len len))))
+    by (intros; apply fresh_alloc_slice_aux; apply alloc_fill_index').
+  destruct v; try (left; revert H; unfold hp_f_sort; match goal with |- ?m st = _ -> _ => assert (Hf : hM_fresh m) by fresh_go; apply Hf end).
+  - (* slices *)
+    destruct tag, len;
+      try solve [left; revert H; cbn [hp_f_sort];
+                 match goal with |- ?m st = _ -> _ => assert (Hf : hM_fresh m); [|apply Hf] end;
+                 repeat first [ apply Hfill | fresh_step ]].
+    right. simpl in H. unfold hp_ret in H. inversion H; subst. split; [reflexivity|eauto].
+  - (* array values *)
+    left. revert H. cbn [hp_f_sort]. match goal with |- ?m st = _ -> _ => assert (Hf : hM_fresh m); [|apply Hf] end.
+    apply fresh_bind; [spec_go|intros sorted]. apply Hfill.
 Qed.
 
 (* merge: fresh on lists, arrays and maps; any other value is returned itself *)
